@@ -166,6 +166,38 @@ func (p *Prog) nonZero(v ssa.Value, at ssa.Instruction, depth int, seen map[ssa.
 								}
 							}
 							if !proved {
+								// or: every value ever stored into the captured variable is non-zero where it is stored
+								// (`size := T(interval)` under `interval > 0`, then captured)
+								stores := 0
+								allNZ := true
+								for _, r := range *al.Referrers() {
+									if st, ok := r.(*ssa.Store); ok && st.Addr == ssa.Value(al) {
+										stores++
+										if p.nonZero(st.Val, st, depth+1, seen) == "" {
+											allNZ = false
+										}
+									}
+								}
+								// the variable must not be written by the closure itself or by another one
+								for _, r := range *al.Referrers() {
+									if other, ok := r.(*ssa.MakeClosure); ok {
+										if cf, _ := other.Fn.(*ssa.Function); cf != nil {
+											for i, bnd := range other.Bindings {
+												if bnd != ssa.Value(al) || i >= len(cf.FreeVars) {
+													continue
+												}
+												for _, rr := range *cf.FreeVars[i].Referrers() {
+													if st, isSt := rr.(*ssa.Store); isSt && st.Addr == ssa.Value(cf.FreeVars[i]) {
+														allNZ = false
+													}
+												}
+											}
+										}
+									}
+								}
+								proved = stores > 0 && allNZ
+							}
+							if !proved {
 								return ""
 							}
 							continue
